@@ -14,6 +14,7 @@ UNITS = {
     'codecache': {},
     'disasm': {},
     'loader': {},
+    'video_leaf': {},
 }
 
 PROPS = {
@@ -186,10 +187,10 @@ PROPS['C20'] = {
     'assumptions': [],
 }
 PROPS['C15'] = {
-    'level': 'proof', 'kani': ['misc:leaf'], 'verus': ['video_timing'], 'design_ref': 'DESIGN.md 5.15',
+    'level': 'proof', 'kani': ['misc:leaf'], 'verus': ['video_timing', 'video_leaf'], 'design_ref': 'DESIGN.md 5.15',
     'trusted_base': ['Kani 0.68 + CBMC 6.11', 'Verus (palette setters in video_regs.vinc)'],
-    'technique': 'leaf contracts only: Kani full-domain harness for tile::interleave; Verus contracts for set_bgp / set_obj_palette shade tables',
-    'level_text': 'Leaf obligations only: tile::interleave(lo, hi) places pixel k\'s colour bits at bits 15-2k / 14-2k for all 2^16 inputs (CBMC, complete); set_bgp / set_obj_palette fill the shade tables from the 2-bit fields (Verus). The composition of a frame (tile fetch, scroll, window, object selection/priority, mixing) is NOT proved.',
+    'technique': 'leaf contracts only: Kani full-domain harness for tile::interleave; Verus contracts for tile-data addressing (both LCDC.4 modes), map addressing with scroll wrap, window line, object row fetch with x-flip (bit reversal), palette tables',
+    'level_text': 'Leaf obligations only: tile::interleave(lo, hi) places pixel k\'s colour bits at bits 15-2k / 14-2k for all 2^16 inputs (CBMC, complete); Verus (all inputs): get_tile_address = unsigned addressing from 0x8000 / signed around 0x9000 for all 256 indices, get_bg_tile / get_window_tile read the configured map at row*32+column, cache_next_tile_row fetches map row ((LY+SCY) mod 256)/8, tile row (LY+SCY) mod 8 and wraps the column modulo 32, cache_next_window_tile_row uses (LY-WY) mod 256, get_object_row uses unsigned addressing and reverses the bits of both planes on x-flip, set_bgp / set_obj_palette fill the shade tables. The composition of a frame (pixel pipeline across a line, window switch, object selection / priority / mixing) is NOT proved.',
     'level_note': 'The mode-3 pixel pipeline, find_current_line_sprites and the window logic need inductive invariants over nested loops that were out of budget; no bounded stand-in was built either. Treat this claim as partial.',
     'assumptions': [],
 }
